@@ -407,3 +407,43 @@ Example C07_example_aligned_cluster :
   spike_delays_int 2 7 [[[0;1;3;1;0;0;0]; [0;2;9;2;0;0;0]]; [[0;0;1;3;1;0;0]; [0;0;2;9;2;0;0]];
                         [[0;1;3;1;0;0;0]; [0;2;9;2;0;0;0]]] = Some (1%nat, [Some 0; Some (-1); Some 0]).
 Proof. vm_compute. split; reflexivity. Qed.
+
+(* ---- round 3: scale invariance of the peak interpolation ----
+   x -> g x keeps the interpolated offset and multiplies the interpolated value by g, for any
+   g <> 0 in any field (so for 1e-12 as for 1e12): the zero-curvature guard is an EXACT test.
+   The one excluded configuration, zero curvature with non-zero slope, cannot occur around a
+   maximum.  On arrays: with g positive (order preserved), parabolic_max(g x) returns the
+   same edge flag and interpolated index and g times the value. *)
+Theorem C07_parabola_scale_invariant :
+  forall (C : Type) (c0 c1 : C) (cadd cmul : C -> C -> C) (copp cinv : C -> C) (ceqb : C -> C -> bool),
+  field_theory c0 c1 cadd cmul (fsub C cadd copp) copp (fdiv C cmul cinv) cinv (@eq C) ->
+  (forall a b, ceqb a b = true -> a = b) -> (forall a, ceqb a a = true) -> cadd c1 c1 <> c0 ->
+  forall g a b c, g <> c0 ->
+  parab_p0 C c1 cadd cmul copp cinv a b c <> c0 \/ parab_p1 C c1 cadd cmul copp cinv a c = c0 ->
+  parab_ipeak C c0 c1 cadd cmul copp cinv ceqb (cmul g a) (cmul g b) (cmul g c)
+    = parab_ipeak C c0 c1 cadd cmul copp cinv ceqb a b c /\
+  parab_maxi C c0 c1 cadd cmul copp cinv ceqb (cmul g a) (cmul g b) (cmul g c)
+    = cmul g (parab_maxi C c0 c1 cadd cmul copp cinv ceqb a b c).
+Proof.
+  intros C c0 c1 cadd cmul copp cinv ceqb Cf Ht Hr H2.
+  exact (parab_scale C c0 c1 cadd cmul copp cinv Cf ceqb Ht H2 Hr).
+Qed.
+Print Assumptions C07_parabola_scale_invariant.
+
+Theorem C07_parabolic_max_scale_invariant :
+  forall (C : Type) (c0 c1 : C) (cadd cmul : C -> C -> C) (copp cinv : C -> C) (cleb ceqb : C -> C -> bool),
+  field_theory c0 c1 cadd cmul (fsub C cadd copp) copp (fdiv C cmul cinv) cinv (@eq C) ->
+  (forall a b, ceqb a b = true -> a = b) -> (forall a, ceqb a a = true) -> cadd c1 c1 <> c0 ->
+  forall g, g <> c0 -> (forall x y, cleb (cmul g x) (cmul g y) = cleb x y) ->
+  forall x : list C,
+  (forall i, argmax C cleb x = Some i -> i <> 0%nat -> i <> (length x - 1)%nat ->
+     parab_p0 C c1 cadd cmul copp cinv (nth (i - 1) x c0) (nth i x c0) (nth (i + 1) x c0) <> c0 \/
+     parab_p1 C c1 cadd cmul copp cinv (nth (i - 1) x c0) (nth (i + 1) x c0) = c0) ->
+  parabolic_max C c0 c1 cadd cmul copp cinv cleb ceqb (map (cmul g) x) =
+  match parabolic_max C c0 c1 cadd cmul copp cinv cleb ceqb x with
+  | Some (e, ip, mx) => Some (e, ip, cmul g mx) | None => None end.
+Proof.
+  intros C c0 c1 cadd cmul copp cinv cleb ceqb Cf Ht Hr H2 g Hg Hs.
+  exact (pmax_scale C c0 c1 cadd cmul copp cinv Cf cleb ceqb Ht H2 Hr g Hg Hs).
+Qed.
+Print Assumptions C07_parabolic_max_scale_invariant.
